@@ -44,23 +44,23 @@ __CPROVER_ensures(__CPROVER_return_value == item->metadata.int_metadata.width);
 
 uint8_t cbor_get_uint8(const cbor_item_t *item)
 __CPROVER_requires(INT_VALID(item) && INT_WIDTH(item) == CBOR_INT_8) __CPROVER_assigns()
-__CPROVER_ensures(__CPROVER_return_value == *item->data);
+__CPROVER_ensures(__CPROVER_return_value == *PAYLOAD(item));
 uint16_t cbor_get_uint16(const cbor_item_t *item)
 __CPROVER_requires(INT_VALID(item) && INT_WIDTH(item) == CBOR_INT_16) __CPROVER_assigns()
-__CPROVER_ensures(__CPROVER_return_value == *(uint16_t *)item->data);
+__CPROVER_ensures(__CPROVER_return_value == *(uint16_t *)PAYLOAD(item));
 uint32_t cbor_get_uint32(const cbor_item_t *item)
 __CPROVER_requires(INT_VALID(item) && INT_WIDTH(item) == CBOR_INT_32) __CPROVER_assigns()
-__CPROVER_ensures(__CPROVER_return_value == *(uint32_t *)item->data);
+__CPROVER_ensures(__CPROVER_return_value == *(uint32_t *)PAYLOAD(item));
 uint64_t cbor_get_uint64(const cbor_item_t *item)
 __CPROVER_requires(INT_VALID(item) && INT_WIDTH(item) == CBOR_INT_64) __CPROVER_assigns()
-__CPROVER_ensures(__CPROVER_return_value == *(uint64_t *)item->data);
+__CPROVER_ensures(__CPROVER_return_value == *(uint64_t *)PAYLOAD(item));
 uint64_t cbor_get_int(const cbor_item_t *item)
 __CPROVER_requires(INT_VALID(item)) __CPROVER_assigns()
 __CPROVER_ensures(__CPROVER_return_value ==
-                  (INT_WIDTH(item) == CBOR_INT_8    ? (uint64_t)*item->data
-                   : INT_WIDTH(item) == CBOR_INT_16 ? (uint64_t)*(uint16_t *)item->data
-                   : INT_WIDTH(item) == CBOR_INT_32 ? (uint64_t)*(uint32_t *)item->data
-                                                    : *(uint64_t *)item->data));
+                  (INT_WIDTH(item) == CBOR_INT_8    ? (uint64_t)*PAYLOAD(item)
+                   : INT_WIDTH(item) == CBOR_INT_16 ? (uint64_t)*(uint16_t *)PAYLOAD(item)
+                   : INT_WIDTH(item) == CBOR_INT_32 ? (uint64_t)*(uint32_t *)PAYLOAD(item)
+                                                    : *(uint64_t *)PAYLOAD(item)));
 
 /* floats_ctrls.c */
 cbor_float_width cbor_float_get_width(const cbor_item_t *item)
@@ -79,13 +79,13 @@ __CPROVER_ensures(__CPROVER_return_value == (FL_WIDTH(item) == CBOR_FLOAT_0));
 #define RET_F64_BITS (((union { double as_d; uint64_t as_u; }){.as_d = __CPROVER_return_value}).as_u)
 float cbor_float_get_float2(const cbor_item_t *item)
 __CPROVER_requires(FLOAT_CTRL_VALID(item) && FL_WIDTH(item) == CBOR_FLOAT_16) __CPROVER_assigns()
-__CPROVER_ensures(RET_F32_BITS == F32_AT(item->data));
+__CPROVER_ensures(RET_F32_BITS == F32_AT(PAYLOAD(item)));
 float cbor_float_get_float4(const cbor_item_t *item)
 __CPROVER_requires(FLOAT_CTRL_VALID(item) && FL_WIDTH(item) == CBOR_FLOAT_32) __CPROVER_assigns()
-__CPROVER_ensures(RET_F32_BITS == F32_AT(item->data));
+__CPROVER_ensures(RET_F32_BITS == F32_AT(PAYLOAD(item)));
 double cbor_float_get_float8(const cbor_item_t *item)
 __CPROVER_requires(FLOAT_CTRL_VALID(item) && FL_WIDTH(item) == CBOR_FLOAT_64) __CPROVER_assigns()
-__CPROVER_ensures(RET_F64_BITS == F64_AT(item->data));
+__CPROVER_ensures(RET_F64_BITS == F64_AT(PAYLOAD(item)));
 double cbor_float_get_float(const cbor_item_t *item)
 __CPROVER_requires(FLOAT_CTRL_VALID(item) && FL_WIDTH(item) != CBOR_FLOAT_0) __CPROVER_assigns();
 bool cbor_get_bool(const cbor_item_t *item)
